@@ -22,13 +22,19 @@ Record eqcfg := mkcfg {
   c_conv_err     : bool;  (* collection Equals methods treat a failed On<Type>(with) as inequality *)
   c_with_driven  : bool;  (* collection Equals methods delegate as receiver.Equals(with), not with.Equals(receiver) *)
   c_nil_guards   : bool;  (* Object / IntransitiveActivity / Activity / Actor.Equals test IsNil(with) first *)
-  c_url_items    : bool   (* Object.Equals compares url with ItemsEqual, as its sibling properties, not by GetLink() *)
+  c_url_items    : bool;  (* Object.Equals compares url with ItemsEqual, as its sibling properties, not by GetLink() *)
+  c_match_once   : bool   (* ItemCollection.Equals matches the members one to one (a []bool of used positions) instead of
+                             asking w.Contains(member) for every member *)
 }.
-Definition cfg_fixed : eqcfg := mkcfg true true true true true true true true.
-Definition cfg_pinned : eqcfg := mkcfg false false false false false false false false.
-(* every repair but the last one: url compared as w.URL.GetLink().Equals(o.URL.GetLink(), false) under the IsNil
+Definition cfg_fixed : eqcfg := mkcfg true true true true true true true true true.
+Definition cfg_pinned : eqcfg := mkcfg false false false false false false false false false.
+(* every repair but the one of url: url compared as w.URL.GetLink().Equals(o.URL.GetLink(), false) under the IsNil
    guard - the code before the fix "Object.Equals compared url by GetLink() only" (C09_url_list_pinned_refuted) *)
-Definition cfg_url_links_pinned : eqcfg := mkcfg true true true true true true true false.
+Definition cfg_url_links_pinned : eqcfg := mkcfg true true true true true true true false true.
+(* every repair but the one of the list comparison: after the length test, `for _, it := range i { if !w.Contains(it) }` -
+   the code before the fix "ItemCollection.Equals only asked whether every member is contained in the other list"
+   (C09_list_repeated_member_pinned_refuted) *)
+Definition cfg_list_contains_pinned : eqcfg := mkcfg true true true true true true true true false.
 
 (* The four Equals methods that had no nil test, called DIRECTLY with a nil-like argument (ItemsEqual
    never does that: it tests IsNil first).  Pinned tree: Object.Equals called with.GetID() on the nil;
@@ -184,6 +190,41 @@ Section Eq0.
               (fun b => if b then all_contained t w else Ok false)
     end.
 
+  (* the inner loop `for j, wit := range *w { if !used[j] && ItemsEqual(wit, it) { used[j] = true; found = true; break } }`:
+     Some used' = found, with the position marked; None = not found.  A used position costs no comparison.
+     ([used] is as long as [w]: make([]bool, len( *w)).  A shorter one would be an index panic in Go; the interpreter of
+     Model/ItemsEqTab.v has that panic and Proofs/ItemsEqTabP.v proves it is never reached) *)
+  Fixpoint find_unused (w : list item) (used : list bool) (x : item) : outcome (option (list bool)) :=
+    match w, used with
+    | m :: t, true :: ut => obind (find_unused t ut x) (fun r => Ok (option_map (cons true) r))
+    | m :: t, false :: ut =>
+        obind (rec m x) (fun b => if b then Ok (Some (true :: ut))
+                                  else obind (find_unused t ut x) (fun r => Ok (option_map (cons false) r)))
+    | _, _ => Ok None
+    end.
+
+  (* the loop `for _, it := range i { found := false; <inner loop>; if !found { result = false; return } }` *)
+  Fixpoint all_matched (i w : list item) (used : list bool) : outcome bool :=
+    match i with
+    | [] => Ok true
+    | x :: t => obind (find_unused w used x)
+                      (fun r => match r with Some used' => all_matched t w used' | None => Ok false end)
+    end.
+
+  (* the same loop said without positions: the first member of [w] equal to [x] is taken out of [w]
+     (Proofs/EqualP.v, all_matched_removal: all_matched i w used = all_removed i (the members of w not yet used)) *)
+  Fixpoint remove_first (w : list item) (x : item) : outcome (option (list item)) :=
+    match w with
+    | [] => Ok None
+    | m :: t => obind (rec m x) (fun b => if b then Ok (Some t)
+                                          else obind (remove_first t x) (fun r => Ok (option_map (cons m) r)))
+    end.
+  Fixpoint all_removed (i w : list item) : outcome bool :=
+    match i with
+    | [] => Ok true
+    | x :: t => obind (remove_first w x) (fun r => match r with Some w' => all_removed t w' | None => Ok false end)
+    end.
+
   (* ItemCollection.Equals; the receiver is given as a list (nil and empty behave alike) *)
   Definition itemcoll_equals (i : list item) (w : item) : outcome bool :=
     if is_nil w then Ok (Nat.eqb (length i) 0)   (* IsNil(i) || len(i) == 0 *)
@@ -194,6 +235,7 @@ Section Eq0.
          | None => Ok true                           (* error of OnItemCollection dropped *)
          | Some wl =>
              if negb (Nat.eqb (length wl) (length i)) then Ok false
+             else if c_match_once cfg then all_matched i wl (repeat false (length wl))
              else all_contained i wl
          end.
 
@@ -460,6 +502,7 @@ Fixpoint items_equal_c (ideq : bytes -> bytes -> bool -> bool) (cfg : eqcfg) (fu
 Definition items_equal ideq := items_equal_c ideq cfg_fixed.
 Definition items_equal_pinned ideq := items_equal_c ideq cfg_pinned.
 Definition items_equal_url_links_pinned ideq := items_equal_c ideq cfg_url_links_pinned.
+Definition items_equal_list_contains_pinned ideq := items_equal_c ideq cfg_list_contains_pinned.
 (* iri.go IRIs.Contains(r) over the same comparison ([iris_contains] of Model/IriEq.v is the instance with iri_eqb,
    [iris_contains_u] of Model/IriEqU.v the one with iri_equ - both by definition) *)
 Definition iris_contains (ideq : bytes -> bytes -> bool -> bool) (l : list bytes) (x : bytes) : bool :=
@@ -496,6 +539,8 @@ Definition ieq ideq (x y : item) : outcome bool := EqG.items_equal ideq (fuel_fo
 Definition ieq_pinned ideq (x y : item) : outcome bool := EqG.items_equal_pinned ideq (fuel_for x y) x y.
 Definition ieq_url_links_pinned ideq (x y : item) : outcome bool :=
   EqG.items_equal_url_links_pinned ideq (fuel_for x y) x y.
+Definition ieq_list_contains_pinned ideq (x y : item) : outcome bool :=
+  EqG.items_equal_list_contains_pinned ideq (fuel_for x y) x y.
 End EqGI.
 
 (* ---- the instance with the comparison over the plain URL grammar: the names as they always were ---- *)
@@ -521,3 +566,5 @@ Notation ieq := (EqGI.ieq iri_eqb).
 Notation ieq_pinned := (EqGI.ieq_pinned iri_eqb).
 Notation items_equal_url_links_pinned := (EqG.items_equal_url_links_pinned iri_eqb).
 Notation ieq_url_links_pinned := (EqGI.ieq_url_links_pinned iri_eqb).
+Notation items_equal_list_contains_pinned := (EqG.items_equal_list_contains_pinned iri_eqb).
+Notation ieq_list_contains_pinned := (EqGI.ieq_list_contains_pinned iri_eqb).
